@@ -22,6 +22,8 @@ CIDS = {
     "header1": "D,Format,Delimited\nD,Line delimiter,LF\nD,Header,1\nF,id,,,,Integer,0...99\nF,name,,,1...5\nC,unique id,IsUnique,id\n",
     "header2": "D,Format,Delimited\nD,Line delimiter,LF\nD,Header,2\nF,id,,,,Integer,0...99\nF,name,,,1...5\nC,unique id,IsUnique,id\n",
     "rejected": "D,Format,Delimited\nF,id,,,,Integer,9...0\nF,name\n",
+    "nofields": "D,Format,Delimited\nD,Line delimiter,LF\n",  # a data format but no field: rejected by the API, so exit code 1
+    "nofields+check": "D,Format,Delimited\n,a comment\nC,c,IsUnique,id\n",
     "malformed": 'D,Format,Delimited\nF,id,,,,Integer,0...99\nF,"name\n',
     "ods": "D,Format,ODS\nF,id,,,,Integer,0...99\nF,name,,,1...5\nC,unique id,IsUnique,id\n",
     "excel": "D,Format,Excel\nF,id,,,,Integer,0...99\nF,name,,,1...5\nC,unique id,IsUnique,id\n",
@@ -31,8 +33,9 @@ FILES = {
     "field": "1,ann\n2,bob\nx,cy\n4,dee\n",
     "unique": "1,ann\n2,bob\n3,cy\n3,dee\n",
     "sibling": "1,dan\n2,eve\n4,fay\n",
+    "empty": "",
 }
-KINDS = ["accepted", "field", "unique", "sibling", "missing", "directory"]
+KINDS = ["accepted", "field", "unique", "sibling", "missing", "directory", "empty"]
 UNTILS = [None, -1, 0, 1, 2, 3]
 _FOLDER = {}
 
@@ -91,7 +94,7 @@ def api_rejects(kind, until, cid_kind="valid"):
 def expected_code(cid, kinds, until):
     if cid == "missing":
         return 3
-    if cid in ("rejected", "malformed"):
+    if cid in ("rejected", "malformed", "nofields", "nofields+check"):
         return 1
     rejected = False
     for kind in kinds:
@@ -173,7 +176,7 @@ def all_cases(tier="quick"):
     cases = []
     thorough = tier == "thorough"
     lists = [list(p) for n in range(0, 5 if thorough else 4) for p in itertools.product(KINDS, repeat=n)]
-    for cid in ("valid", "rejected", "malformed", "missing"):
+    for cid in ("valid", "rejected", "malformed", "missing", "nofields", "nofields+check"):
         for files in lists:
             for until in UNTILS:
                 if cid != "valid" and (until not in (None, 2) or len(files) > 2):
